@@ -306,6 +306,30 @@ def run_case(ctx, chi, rng, n_ids, subs, tag='gen'):
     ctx.spec('C02.arguments_unchanged', np.array_equal(params, pcopy, equal_nan=True) and
              (cov is None or np.array_equal(cov, ccopy)) and (again == v or (math.isnan(again) and math.isnan(v))),
              inp, {'first': v, 'second': again})
+    # a sibling built from the SAME population-model object (another cohort: other covariates, other data),
+    # evaluated in between at the same parameters, and the first one again
+    if ctx.cases % 2 == 1:
+        try:
+            cov2 = None if cov is None else cov + rng.normal(size=cov.shape) * 0.3
+            lls2 = []
+            for i in range(n_ids):
+                nt = int(rng.integers(1, 4))
+                times = np.sort(rng.choice(np.arange(1, 20) * 0.5, nt, replace=False))
+                lls2.append(chi.LogLikelihood(toy.ToyModel(1, D - 1, seed), chi.GaussianErrorModel(),
+                                              list(rng.uniform(0.5, 3.0, nt)), list(times)))
+            hll2 = chi.HierarchicalLogLikelihood(lls2, pm, covariates=cov2)
+            with np.errstate(all='ignore'):
+                v2 = float(hll2(params))
+                v1again = float(hll(params))
+            sp2 = spec_hier(subs, n_ids, bottom, top_full, cov2, lls2)
+            if sp2 is not None and not math.isnan(sp2[0]):
+                ctx.spec('C02.sibling_with_same_population_model', core.close(v2, sp2[0]),
+                         dict(inp, cov_of_sibling=cov2), {'sibling': v2, 'spec': sp2[0]})
+            ctx.spec('C02.sibling_with_same_population_model', core.close(v1again, v) or
+                     (math.isnan(v) and math.isnan(v1again)), dict(inp, cov_of_sibling=cov2),
+                     {'before_sibling': v, 'after_sibling': v1again})
+        except Exception as e:  # noqa
+            ctx.spec('C02.sibling_with_same_population_model', False, inp, {'raised': repr(e)[:200]})
     if ctx.cases % 3 == 0:
         ctx.inplace_reuse('C02.array_changed_in_place_between_calls', lambda a: float(hll(a)), params,
                           params * np.linspace(1.05, 1.25, len(params)), inp)
